@@ -215,7 +215,6 @@ theorem C17_throwable (t : Throwable) (h : ThrowableWF t) :
 theorem C17_trace (t : Trace) (h : TraceWF t) : parseTrace (printTrace t) = some t := by
   unfold parseTrace
   simp only [strLines_printTrace t h]
-  have hcs := ptl_causes
   cases t with
   | mk top causes =>
     cases top with
